@@ -32,7 +32,7 @@ const c35Thresh = 48 // VGI_RPC_SHM_MIN_BATCH_BYTES for this process (read once 
 
 func init() {
 	os.Setenv("VGI_RPC_SHM_MIN_BATCH_BYTES", strconv.Itoa(c35Thresh))
-	Register("C35", "ptr: boundary classes of offset/length strings first (empty, sign, space, exponent, 2^63, 2^64-1, 2^64, header offsets, off+len=size, size+1, uint64 wrap, negative length), then random templates around real slots, duplicate/missing keys, nil/closed segment, non-pointer batches; rt: every layout (fast / stripped top-level dictionary / full nested dictionary) x fits / does not fit / nil segment / zero rows / below the size gate, then random type trees; skip: real IPC streams, truncated, byte-flipped, random. Non-trivial = ptr case that reaches offset parsing, rt case that was replaced, skip case of >= 8 bytes; distinct = distinct input JSON",
+	Register("C35", "ptr: boundary classes of offset/length strings first (empty, sign, space, exponent, 2^63, 2^64-1, 2^64, header offsets, off+len=size, size+1, uint64 wrap, negative length), then random templates around real slots, duplicate/missing keys, nil/closed segment, non-pointer batches; rt: every layout (fast / stripped top-level dictionary / full nested dictionary) x fits / does not fit / nil segment / zero rows / below the size gate, then random type trees; skip: real IPC streams, truncated, byte-flipped, random, flatbuffers vtable boundaries; hist: histories of 2..4 writes on ONE segment read back through the pointer path after the whole history - boundary pairs of distinct schemas with identical arrow fingerprint first (field / schema metadata, list child name / nullability / metadata, map key and value names, struct child metadata; both orders, A-B-A, reuse of the same schema object, interleaved dictionary layouts, a segment that fills up), then random type trees with random cosmetic perturbations; read-back equality = Schema.Equal + strict schema rendering (names, nullability, metadata at every depth) + RecordEqual. Non-trivial = ptr case that reaches offset parsing, rt case that was replaced, skip case of >= 8 bytes, hist case with >= 2 replaced writes; distinct = distinct input JSON",
 		c35Gen, c35Run)
 }
 
@@ -62,6 +62,15 @@ type c35In struct {
 	Batch *c35Batch `json:"batch,omitempty"`
 	// skip
 	Hex string `json:"hex,omitempty"`
+	// hist: a history of writes on ONE segment (Data bytes after the header)
+	Hist []c35Write `json:"hist,omitempty"`
+}
+
+// c35Write is one write of a history. ReuseOf = j+1 passes the very same *arrow.Schema object
+// as write j (same spec, fresh data); 0 builds a fresh schema object.
+type c35Write struct {
+	Batch   c35Batch `json:"batch"`
+	ReuseOf int      `json:"reuse_of,omitempty"`
 }
 
 const (
@@ -100,6 +109,27 @@ func c35RandTy(r *rand.Rand, depth int) string {
 		return "s"
 	}
 	return "i"
+}
+
+// c35RandTyND: random type tree biased to non-dictionary types (the cached fast path).
+func c35RandTyND(r *rand.Rand, depth int) string {
+	if depth <= 0 {
+		return []string{"i", "s", "m", "i", "s", "d"}[r.Intn(6)]
+	}
+	switch r.Intn(6) {
+	case 0, 1:
+		return "l(" + c35RandTyND(r, depth-1) + ")"
+	case 2:
+		n := 1 + r.Intn(3)
+		parts := make([]string, n)
+		for i := range parts {
+			parts[i] = c35RandTyND(r, depth-1)
+		}
+		return "t(" + strings.Join(parts, ",") + ")"
+	case 3:
+		return "m"
+	}
+	return []string{"i", "s"}[r.Intn(2)]
 }
 
 func c35RandMD(r *rand.Rand) [][2]string {
@@ -237,9 +267,65 @@ func c35Gen(r *rand.Rand, n int, tier string) []c35In {
 	}
 	out = append(out, c35In{Kind: "skip", Hex: "ffffffff0400000000000000"}, c35In{Kind: "skip", Hex: "ffffffff06000000020000000000" + "0000"},
 		c35In{Kind: "skip", Hex: "ffffffff0300000000000000"}, c35In{Kind: "skip", Hex: "ffffffff0400000004000000"})
+	// --- boundary histories: pairs of distinct schemas with identical arrow fingerprint -------
+	hb := func(cols []string, cos int, seed int64) c35Write {
+		return c35Write{Batch: c35Batch{Cols: cols, Rows: 9, DataSeed: seed, Cos: cos}}
+	}
+	hist := func(ws ...c35Write) c35In { return c35In{Kind: "hist", Data: 1 << 16, Hist: ws} }
+	for _, pr := range []struct {
+		cols []string
+		cos  int
+	}{
+		{[]string{"i", "s"}, cosFieldMD}, {[]string{"i", "s"}, cosSchemaMD}, {[]string{"i", "l(i)"}, cosListName | cosListNonNull},
+		{[]string{"i", "l(i)"}, cosListName}, {[]string{"i", "l(i)"}, cosListNonNull}, {[]string{"i", "l(s)"}, cosListChildMD},
+		{[]string{"i", "m"}, cosMapNames}, {[]string{"i", "t(i,s)"}, cosStructChildMD}, {[]string{"i", "l(t(i,l(s)))", "m"}, cosAll},
+	} {
+		a, b := hb(pr.cols, 0, 21), hb(pr.cols, pr.cos, 22)
+		out = append(out, hist(a, b), hist(b, a))
+	}
+	{
+		a, b := hb([]string{"i", "l(i)"}, 0, 31), hb([]string{"i", "l(i)"}, cosListName|cosFieldMD, 32)
+		a2 := hb([]string{"i", "l(i)"}, 0, 33)
+		re := a2
+		re.ReuseOf = 1
+		out = append(out, hist(a, b, a2), hist(a, re, b), hist(a, re),
+			// dictionary layouts bypass the cache; interleave them with colliding fast-path schemas
+			hist(hb([]string{"i", "d"}, 0, 41), hb([]string{"i", "s"}, 0, 42), hb([]string{"i", "d"}, cosFieldMD, 43), hb([]string{"i", "s"}, cosFieldMD, 44)),
+			hist(hb([]string{"i", "l(d)"}, 0, 45), hb([]string{"i", "l(d)"}, cosListName, 46), hb([]string{"i", "l(i)"}, 0, 47), hb([]string{"i", "l(i)"}, cosListName, 48)))
+		// a history that fills the segment: later writes are refused and handed back unchanged
+		small := c35In{Kind: "hist", Data: 6000, Hist: []c35Write{a, b, a2}}
+		out = append(out, small)
+	}
 	// --- random streams --------------------------------------------------------
 	for len(out) < n {
-		switch k := r.Intn(100); {
+		switch k := r.Intn(112); {
+		case k >= 100: // random history on one segment
+			nw := 2 + r.Intn(3)
+			base := []string{"i"}
+			for j := r.Intn(3); j >= 0; j-- {
+				base = append(base, c35RandTyND(r, r.Intn(3)))
+			}
+			var ws []c35Write
+			for len(ws) < nw {
+				switch q := r.Intn(20); {
+				case q < 3 && len(ws) > 0: // same schema object again
+					j := r.Intn(len(ws))
+					w := ws[j]
+					if w.ReuseOf != 0 {
+						j = w.ReuseOf - 1
+					}
+					w.ReuseOf = j + 1
+					w.Batch.DataSeed = r.Int63n(1 << 40)
+					ws = append(ws, w)
+				case q < 6: // unrelated schema (any layout)
+					b := c35RandBatch(r, true)
+					b.MD = nil
+					ws = append(ws, c35Write{Batch: b})
+				default: // the base columns with a random cosmetic perturbation
+					ws = append(ws, c35Write{Batch: c35Batch{Cols: base, Rows: 8 + r.Intn(4), DataSeed: r.Int63n(1 << 40), Cos: r.Intn(cosAll+1) & r.Intn(cosAll+1), MD: c35RandMD(r)}})
+				}
+			}
+			out = append(out, c35In{Kind: "hist", Data: 1 << 16, Hist: ws})
 		case k < 65:
 			nw := 1 + r.Intn(3)
 			w := make([]c35Batch, nw)
@@ -358,8 +444,11 @@ func (o c35Robs) coq() string {
 	return "C35." + o.Kind
 }
 
+// c35SameBatch: equal in schema (arrow's Equal AND a strict rendering that includes schema /
+// field metadata, child names and nullability at every depth) and in values.
 func c35SameBatch(a, b arrow.RecordBatch) bool {
-	return a.Schema().Equal(b.Schema()) && a.NumRows() == b.NumRows() && array.RecordEqual(a, b)
+	return a.Schema().Equal(b.Schema()) && c35SchemaString(a.Schema()) == c35SchemaString(b.Schema()) &&
+		a.NumRows() == b.NumRows() && array.RecordEqual(a, b)
 }
 
 // c35Resolve runs the real ResolveShmBatch under recover and projects the result.
@@ -441,6 +530,8 @@ func c35Run(in c35In) CaseOut {
 		return c35RunPtr(in)
 	case "rt":
 		return c35RunRt(in)
+	case "hist":
+		return c35RunHist(in)
 	}
 	return c35RunSkip(in)
 }
@@ -663,4 +754,194 @@ func c35RunSkip(in c35In) CaseOut {
 		}
 	}()
 	return CaseOut{Coq: Pair(App("C35.ISkip", B(string(buf))), coqObs), Tags: []string{"skip", tag}, Nontrivial: len(buf) >= 8, Obs: coqObs}
+}
+
+// --- histories on one segment ---------------------------------------------------------------
+
+// c35Chunks renders byte strings as Coq terms while sharing literals inside one case: the case
+// term becomes (let c0 := hx ".." in let c1 := .. in (input, obs)). Purely an encoding.
+type c35Chunks struct {
+	names map[string]string
+	order []string
+}
+
+func (c *c35Chunks) name(b []byte) string {
+	if len(b) == 0 {
+		return "[]"
+	}
+	if c.names == nil {
+		c.names = map[string]string{}
+	}
+	if n, ok := c.names[string(b)]; ok {
+		return n
+	}
+	n := fmt.Sprintf("c%d", len(c.order))
+	c.names[string(b)] = n
+	c.order = append(c.order, string(b))
+	return n
+}
+
+// cat renders b as a concatenation of already-named chunks (and the EOS constant) where it
+// happens to be one, falling back to a fresh literal for whatever does not match.
+func (c *c35Chunks) cat(b []byte, eos []byte) string {
+	var parts []string
+	rest := b
+	for len(rest) > 0 {
+		best := ""
+		for _, k := range c.order {
+			if len(k) > len(best) && len(k) <= len(rest) && string(rest[:len(k)]) == k {
+				best = k
+			}
+		}
+		switch {
+		case best != "":
+			parts = append(parts, c.names[best])
+			rest = rest[len(best):]
+		case len(rest) >= len(eos) && string(rest[:len(eos)]) == string(eos):
+			parts = append(parts, "C35.EOS")
+			rest = rest[len(eos):]
+		default:
+			parts = append(parts, B(string(rest)))
+			rest = nil
+		}
+	}
+	if len(parts) == 0 {
+		return "[]"
+	}
+	out := parts[len(parts)-1]
+	for i := len(parts) - 2; i >= 0; i-- {
+		out = "(app " + parts[i] + " " + out + ")"
+	}
+	return out
+}
+
+func (c *c35Chunks) wrap(term string) string {
+	var sb strings.Builder
+	sb.WriteString("(")
+	for _, k := range c.order {
+		sb.WriteString("let " + c.names[k] + " := " + B(k) + " in ")
+	}
+	sb.WriteString(term + ")")
+	return sb.String()
+}
+
+var c35EOS = []byte{0xFF, 0xFF, 0xFF, 0xFF, 0, 0, 0, 0}
+
+func c35RunHist(in c35In) CaseOut {
+	seg := c35MustSeg(in.Data)
+	defer seg.Close()
+	n := len(in.Hist)
+	schemas := make([]*arrow.Schema, n)
+	keys := make([]int, n)
+	recs := make([]arrow.RecordBatch, n)
+	outs := make([]arrow.RecordBatch, n)
+	replaced := make([]bool, n)
+	werrs := make([]error, n)
+	allocs := make([][2]uint64, n)
+	hasAlloc := make([]bool, n)
+	var ch c35Chunks
+	wterms := make([]string, n)
+	for k, w := range in.Hist {
+		if w.ReuseOf > 0 {
+			j := w.ReuseOf - 1
+			if j >= k || fmt.Sprint(in.Hist[j].Batch.Cols, in.Hist[j].Batch.Cos) != fmt.Sprint(w.Batch.Cols, w.Batch.Cos) {
+				panic("c35: bad reuse_of")
+			}
+			schemas[k], keys[k] = schemas[j], keys[j]
+		} else {
+			schemas[k], keys[k] = w.Batch.schema(), k
+		}
+		recs[k] = w.Batch.buildWith(schemas[k])
+		full, err1 := vgirpc.VerifC35SerializeFull(recs[k])
+		so, err2 := vgirpc.VerifC35SchemaOnlyStream(schemas[k])
+		if err1 != nil || err2 != nil || len(so) < 8 || string(so[len(so)-8:]) != string(c35EOS) ||
+			len(full) < len(so) || string(full[:len(so)-8]) != string(so[:len(so)-8]) || string(full[len(full)-8:]) != string(c35EOS) {
+			panic(fmt.Sprint("c35: arrow writer output is not schema-msg ++ body ++ EOS: ", err1, err2))
+		}
+		sm, body := so[:len(so)-8], full[len(so)-8:len(full)-8]
+		before := vgirpc.VerifC35Allocs(seg)
+		func() {
+			defer func() {
+				if rv := recover(); rv != nil {
+					werrs[k] = fmt.Errorf("escaped panic: %v", rv)
+				}
+			}()
+			outs[k], replaced[k], werrs[k] = vgirpc.MaybeWriteToShm(recs[k], seg)
+		}()
+		after := vgirpc.VerifC35Allocs(seg)
+		alloc := "None"
+		if len(after) == len(before)+1 {
+			seen := map[[2]uint64]bool{}
+			for _, e := range before {
+				seen[e] = true
+			}
+			for _, e := range after {
+				if !seen[e] {
+					allocs[k], hasAlloc[k] = e, true
+					alloc = App("Some", Pair(Z(int64(e[0])), Z(int64(e[1]))))
+				}
+			}
+		}
+		mk, mv := make([]string, len(w.Batch.MD)), make([]string, len(w.Batch.MD))
+		for i, kv := range w.Batch.MD {
+			mk[i], mv[i] = kv[0], kv[1]
+		}
+		smT, bodyT := "[]", "[]"
+		if hasAlloc[k] { // the model reads the encoder's bytes only for a write that obtained a region
+			smT, bodyT = ch.name(sm), ch.name(body)
+		}
+		wterms[k] = App("C35.Build_wr", N(uint64(keys[k])), ListOf(w.Batch.types(), func(t *c35Ty) string { return t.coq() }),
+			smT, bodyT, c35MD(mk, mv), alloc)
+	}
+	// read everything back through the pointer path, after the whole history was written
+	oterms := make([]string, n)
+	type wo struct {
+		Replaced  bool    `json:"replaced"`
+		StoredLen int     `json:"stored_len"`
+		Resolve   c35Robs `json:"resolve"`
+		Wrote     string  `json:"wrote"`
+		Got       string  `json:"got,omitempty"`
+	}
+	obs := make([]wo, n)
+	nrep, collide, wrongSchema := 0, false, false
+	for k := range in.Hist {
+		var stored []byte
+		ro := c35Robs{Kind: "OPanic", Err: fmt.Sprint(werrs[k])}
+		if werrs[k] == nil {
+			if replaced[k] && hasAlloc[k] {
+				stored = vgirpc.VerifC35Bytes(seg, allocs[k][0], int(allocs[k][1]))
+				nrep++
+			}
+			ro = c35Resolve(outs[k], seg, recs[k], true)
+		}
+		obs[k] = wo{Replaced: replaced[k], StoredLen: len(stored), Resolve: ro, Wrote: c35SchemaString(schemas[k])}
+		if ro.Kind == "OResolved" && !ro.Eq {
+			wrongSchema = true
+			if res, _, _, err := vgirpc.ResolveShmBatch(outs[k], seg); err == nil {
+				obs[k].Got = c35SchemaString(res.Schema())
+			}
+		}
+		oterms[k] = App("C35.WObs", Bool(replaced[k]), ch.cat(stored, c35EOS), ro.coq())
+		for j := 0; j < k; j++ {
+			if schemas[j].Fingerprint() == schemas[k].Fingerprint() && c35SchemaString(schemas[j]) != c35SchemaString(schemas[k]) {
+				collide = true
+			}
+		}
+	}
+	coqIn := App("C35.IHist", App("C35.Build_hist_case", Z(int64(seg.Size())), B(seg.Name()), List(wterms)))
+	coqObs := App("C35.OHist", List(oterms))
+	tags := []string{"hist", fmt.Sprintf("hist-writes-%d", n), fmt.Sprintf("hist-replaced-%d", nrep)}
+	if collide {
+		tags = append(tags, "hist-same-fingerprint-distinct-schema")
+	}
+	if wrongSchema {
+		tags = append(tags, "hist-read-back-differs")
+	}
+	for _, w := range in.Hist {
+		if w.ReuseOf > 0 {
+			tags = append(tags, "hist-schema-object-reused")
+			break
+		}
+	}
+	return CaseOut{Coq: ch.wrap(Pair(coqIn, coqObs)), Tags: tags, Nontrivial: nrep >= 2, Obs: obs}
 }
